@@ -63,14 +63,14 @@ parts = [
        ("C03:ok", "r is Ok"),
        ("C03:header_bytes", "final(dst)@ == old(dst)@ + enc_hdr(item.flags.more, item.flags.command, payload(*item).len())"),
      ],
-     hints=[("bits", "if data_size <= 255 {", 0, "before", FLAGS_HINT)]),
+     hints=[("bits", "@fn_start", 0, "", FLAGS_HINT)]),
   Fn(CODEC, "encode", impl=r"impl\s+Encoder<Msg>\s+for\s+ZmtpCodec\b", emit_impl="impl ZmtpCodec",
      sig_sub=[("Result<(), Self::Error>", "Result<(), ZmqError>")],
      ensures=[
        ("C03:ok", "r is Ok"),
        ("C03:frame_bytes", "final(dst)@ == old(dst)@ + enc_msg(item)"),
      ],
-     hints=[("bits", "if size <= 255 {", 0, "before", FLAGS_HINT),
+     hints=[("bits", "@fn_start", 0, "", FLAGS_HINT),
             ("ext", "Ok(())", 0, "before", "proof { assert(dst@ =~= old(dst)@ + enc_msg(item)); }")]),
   # ---- encoder.rs
   Fn(ENC, "frame_contiguous", impl=r"impl\s+ZmtpFrameEncoder\b", emit_impl="impl ZmtpFrameEncoder",
@@ -81,19 +81,19 @@ parts = [
      ],
      loops=fc_loops,
      hints=[
-       ("size_in_end", "required_size += if len <= 255 { 2 + len } else { 9 + len };\n      }", 0, "post",
-        "\n      proof { assert(group@.take(group@.len() as int) =~= group@); lemma_wire_batches_snoc(batch@, it1.index@); }"),
-       ("enc_in_end", "self.coalesce_buffer.put_slice(data);\n      }", 0, "post",
-        "\n      proof { assert(group@.take(group@.len() as int) =~= group@); lemma_enc_batches_snoc(batch@, it1.index@); }"),
-       ("size_in", "required_size += if len <= 255", 0, "before",
+       ("size_in_end", "@loop_end:0", 0, "",
+        "      proof { assert(group@.take(group@.len() as int) =~= group@); lemma_wire_batches_snoc(batch@, it1.index@); }"),
+       ("enc_in_end", "@loop_end:2", 0, "",
+        "      proof { assert(group@.take(group@.len() as int) =~= group@); lemma_enc_batches_snoc(batch@, it1.index@); }"),
+       ("size_in", "@loop_start:1", 0, "",
         "proof { lemma_wire_all_snoc(group@, it2.index@); lemma_wire_all_prefix(group@, it2.index@ + 1); lemma_wire_batches_prefix(batch@, it1.index@ + 1); lemma_wire_batches_snoc(batch@, it1.index@); }"),
        ("size_out", "self.coalesce_buffer.reserve(required_size);", 0, "before",
         "proof { assert(batch@.take(batch@.len() as int) =~= batch@); }"),
-       ("snap", "let data = msg.data().unwrap_or(&[]);", 0, "before", "let ghost b0 = self.coalesce_buffer@;"),
-       ("bits", "        if len <= 255 {\n", 0, "before", FLAGS_HINT),
-       ("hdr", "self.coalesce_buffer.put_slice(data);", 0, "before",
+       ("snap", "@loop_start:3", 0, "", "let ghost b0 = self.coalesce_buffer@;"),
+       ("bits", "@loop_start:3", 0, "", FLAGS_HINT),
+       ("hdr", "re:self\\.coalesce_buffer\\.put_slice\\(", 0, "before",
         "proof { assert(zmtp_flags == flags_byte(flags.more, flags.command, len > 255)); assert(self.coalesce_buffer@ =~= b0 + enc_hdr(flags.more, flags.command, len as nat)); }"),
-       ("enc_in", "self.coalesce_buffer.put_slice(data);", 0, "after",
+       ("enc_in", "re:self\\.coalesce_buffer\\.put_slice\\(", 0, "after",
         "proof { assert(self.coalesce_buffer@ =~= b0 + enc_msg(*msg)); lemma_enc_all_snoc(group@, it2.index@); "
         "assert(self.coalesce_buffer@ =~= enc_batches(batch@.take(it1.index@)) + enc_all(group@.take(it2.index@ + 1))); }"),
        ("done", "Ok(self.coalesce_buffer.split().freeze())", 0, "before",
@@ -123,16 +123,16 @@ parts = [
                          "no_commands_b(batch@)"]},
      },
      hints=[
-       ("in_end", "          out.push(payload);\n        }\n      }", 0, "post",
-        "\n      proof { assert(group@.take(group@.len() as int) =~= group@); lemma_enc_batches_snoc(batch@, it1.index@); }"),
-       ("snap", "let payload = verif_unwrap_or_default(msg.data_bytes());", 0, "before", "let ghost o0 = out@;"),
-       ("bits", "        if len <= 255 {\n", 0, "before", "proof { lemma_bits_or(); assert(no_commands(group@)); assert(!msg.flags.command); }"),
+       ("in_end", "@loop_end:0", 0, "",
+        "      proof { assert(group@.take(group@.len() as int) =~= group@); lemma_enc_batches_snoc(batch@, it1.index@); }"),
+       ("snap", "@loop_start:1", 0, "", "let ghost o0 = out@;"),
+       ("bits", "@loop_start:1", 0, "", "proof { lemma_bits_or(); assert(no_commands(group@)); assert(!msg.flags.command); }"),
        ("hdr", "out.push(self.header_slab.split().freeze());", 0, "before",
         "proof { assert(self.header_slab@ =~= enc_hdr(is_more, false, len as nat)); }"),
        ("hdr2", "out.push(self.header_slab.split().freeze());", 0, "after",
         "proof { lemma_concat_push(o0, out@.last()); assert(out@ =~= o0.push(out@.last())); assert(concat_bytes(out@) == concat_bytes(o0) + enc_hdr(is_more, false, len as nat)); }\nlet ghost o1 = out@;"),
-       ("pay", "          out.push(payload);\n        }", 0, "post",
-        "\n        proof { if len > 0 { lemma_concat_push(o1, payload); assert(out@ =~= o1.push(payload)); } "
+       ("pay", "@loop_end:1", 0, "",
+        "        proof { if len > 0 { lemma_concat_push(o1, payload); assert(out@ =~= o1.push(payload)); } "
         "assert(concat_bytes(out@) =~= concat_bytes(o0) + enc_msg(*msg)); lemma_enc_all_snoc(group@, it2.index@); "
         "assert(concat_bytes(out@) =~= enc_batches(batch@.take(it1.index@)) + enc_all(group@.take(it2.index@ + 1))); }"),
        ("done", "    Ok(out)", 0, "before", "proof { assert(batch@.take(batch@.len() as int) =~= batch@); }"),
